@@ -294,3 +294,36 @@ pub fn c12(tier: Tier) -> i32 {
         tot,
     )
 }
+
+
+/// `--replay` of a C03 case: the recorded configuration against the canonical one, twice
+pub fn replay_c03(v: &serde_json::Value) -> i32 {
+    let r = &v["replay"];
+    let data: Vec<u8> = serde_json::from_value(r["input"].clone()).unwrap_or_default();
+    let env: Env = serde_json::from_value(r["env"].clone()).expect("env");
+    let drv: Drv = serde_json::from_value(r["extra"]["driver"].clone()).expect("driver");
+    let data = Rc::new(data);
+    println!("input {:?}\nconfiguration {:?}\ndriver {:?}", esc(&data), env, drv);
+    let a = run_flat(&data, &env, drv);
+    let b = run_flat(&data, &env, drv);
+    if a != b {
+        println!("NON-DETERMINISTIC replay");
+        return 2;
+    }
+    let canon = run_flat(&data, &Env::plain(env.format, 65536), drv);
+    println!("this configuration:");
+    for l in show_flat(&a) {
+        println!("  {}", l);
+    }
+    println!("canonical configuration (64 KiB, StdPolicy, one read):");
+    for l in show_flat(&canon) {
+        println!("  {}", l);
+    }
+    if a.items == canon.items && a.marks == canon.marks {
+        println!("replay: identical observation logs");
+        0
+    } else {
+        println!("replay: logs DIFFER (for set drivers the check additionally tolerates records lost in the batch of an invalid record)");
+        1
+    }
+}
